@@ -37,6 +37,7 @@ type Obligation struct {
 	Query   string
 	Inputs  map[string]Val // named input values for replay
 	replay  *replayInfo
+	cands   *candSet
 	batched bool
 	inVals  []uint64
 	inOk    []bool
@@ -251,6 +252,9 @@ func (e *Engine) oblige(st *State, kind, name string, goal *Term, pos token.Pos,
 		o.Status = "trivial"
 	} else {
 		o.PC = append([]*Term(nil), st.pc...)
+		if hasQuant(goal) || pcHasQuant(st) {
+			o.cands = e.collectCands(st)
+		}
 	}
 	if os.Getenv("GOVC_DEBUG") != "" && !o.Trivial {
 		fmt.Printf("  oblige %s trace=%v goal=%s\n", o.Name, st.trace, goal)
@@ -1928,4 +1932,13 @@ func lfnp(s string) string {
 		return ""
 	}
 	return "@" + s + "."
+}
+
+func pcHasQuant(st *State) bool {
+	for _, p := range st.pc {
+		if hasQuant(p) {
+			return true
+		}
+	}
+	return false
 }
